@@ -10,7 +10,10 @@ def run(ctx):
     r = vlib.tlc(ctx, "Grammar.tla", "Grammar_q.cfg" if quick else "Grammar_t.cfg", "grammar", workers=1, env={"JAVA_TOOL_OPTIONS": "-Xss64m"}, timeout=3000)
     if not r["ok"]:
         raise vlib.ToolError(f"TLC failed on Grammar.tla (recogniser examples?): {r['errors'][:2]}")
-    s = vlib.harness(ctx, "grammar_replay", [r["out"]] + ([] if quick else ["--all-macros"]), timeout=7200)
+    wd = ctx.workdir("grammar")
+    trace = os.path.join(wd, "random.ndjson")
+    s = vlib.harness(ctx, "grammar_replay", [r["out"]] + ([] if quick else ["--all-macros"]),
+                     env={"VERIF_GRAMMAR_TRACE": trace, "VERIF_GRAMMAR_RANDOM": "3000" if quick else "60000"}, timeout=7200)
     os.remove(r["out"])
     if s["extra"]["name_strings"] < 2000 or s["extra"]["version_strings"] < 20000 or s["extra"]["macro_invocations"] < 1000:
         raise vlib.ToolError(f"too few cases: {s['extra']}")
@@ -21,6 +24,29 @@ def run(ctx):
         if m["signature"].startswith("HARNESS"):
             raise vlib.ToolError(m["detail"][:600])
     vlib.take_summary(ctx, s, "grammar_replay")
+    # direction B: random longer strings and u64 triples, judged by TLC with the same recognisers
+    t = vlib.tlc(ctx, "Grammar.tla", "Grammar_trace.cfg", "trace", workers=1, env={"JAVA_TOOL_OPTIONS": "-Xss64m", "TRACE": trace}, timeout=3000)
+    bad = [l for l in open(t["out"], errors="replace") if "TRACE_MISMATCH" in l]
+    if bad:
+        import json
+        i = int(bad[0].split(",")[1].strip(" >\n"))
+        ev = json.loads(open(trace).read().splitlines()[i - 1])
+        ctx.violation("random string judged differently from the specification", f"{''.join(ev['s'])!r}: {ev}", {"event": ev}, "grammar_trace")
+    elif not t["ok"]:
+        raise vlib.ToolError(f"TLC failed on the random grammar trace: {t['errors'][:2]}")
+    else:
+        import json
+        evs = [json.loads(x) for x in open(trace).read().splitlines()]
+        k = next(j for j in range(len(evs) // 4, len(evs)) if evs[j]["kind"] == "name" and evs[j]["key"])
+        evs[k]["key"] = False
+        badf = os.path.join(wd, "corrupted.ndjson")
+        vlib.write_ndjson(badf, evs)
+        t2 = vlib.tlc(ctx, "Grammar.tla", "Grammar_trace.cfg", "selftest", workers=1, env={"JAVA_TOOL_OPTIONS": "-Xss64m", "TRACE": badf}, timeout=3000)
+        if not any(f"\"TRACE_MISMATCH\", {k + 1}>>" in l for l in open(t2["out"], errors="replace")):
+            raise vlib.ToolError("binding self-test failed: a flipped verdict was not rejected")
+        ctx.cov["binding_selftest"] = f"flipped verdict of record {k + 1} rejected"
+        ctx.add("traces_validated_against_impl", 1)
+        ctx.cov["random_strings_validated"] = s["extra"].get("random_strings", 0)
     ctx.add("evaluations", s["evaluations"])
     ctx.add("distinct_nontrivial", s["distinct_nontrivial"])
     ctx.cov.update({k: s["extra"][k] for k in ("name_strings", "version_strings", "macro_invocations", "macro_verdicts")})
